@@ -35,11 +35,11 @@ FUNCTIONS_ENCODED = [
     'concat first select_many zip_ join take_while skip_while index_of index_where slice_ accumulate memorize',
     'yaql.standard_library.collections: delete replace iter_insert insert_many replace_many']
 BOUNDS = {
-    'quick': 'every operator of the list alone and (VERIF_SEED-rotated shard) 2-operator pipelines whose second '
-             'operator is chosen by a symbolic selector; source = endless counting iterator 0,1,2,... with budget 12; '
+    'quick': 'every operator of the list alone, and 2-operator pipelines: every operator as first, the second chosen '
+             'by a symbolic selector among a VERIF_SEED-rotated third of the table; source = endless counting iterator 0,1,2,... with budget 12; '
              'results demanded k in 0..3 (symbolic), integer arguments in 0..2 (symbolic), lambda constants unbounded '
              'symbolic ints restricted only by "the ideal pipeline terminates within the budget"; call API with counting '
-             'Python lambdas; single operators also as YAQL text with tick($) lambdas',
+             'Python lambdas; a rotated sixth of the single operators also as YAQL text with tick($) lambdas (budget 8)',
     'thorough': 'all 2-operator pipelines (call API and YAQL text), 3- and 4-operator pipelines with every later '
                 'operator chosen by symbolic selectors (k in 0..2, ints in 0..1), budget 14'}
 OUTSIDE = ['operators that materialise by definition (orderBy, groupBy, reverse, last, splitAt, toList, ...)',
@@ -520,25 +520,33 @@ def conditions(tier, seed):
     quick = tier == 'quick'
     out = []
     budget = 12 if quick else 14
-    first_ops = [n for n, o in enumerate(OPS)]
-    for s1 in first_ops:
-        o = OPS[s1]
+    ntext = 0
+    for s1, o in enumerate(OPS):
         for mode in ('api', 'text'):
-            out.append({'name': 'single[%s|%s]' % (o.name, mode), 'func': 'h_pipe', 'timeout': 150 if quick else 400,
-                        'param': {'s1': s1, 'depth': 1, 'mode': mode, 'budget': budget, 'dmax': 3 if quick else 4,
-                                  'imax': 2 if quick else 3},
-                        'twin': mode == 'api',
+            if quick and mode == 'text':
+                # YAQL-text evaluation costs ~1.5 s per path here: a VERIF_SEED-rotated sixth of the operators per run
+                ntext += 1
+                if ntext % 6 != seed % 6:
+                    continue
+            small = quick and mode == 'text'
+            prm = {'s1': s1, 'depth': 1, 'mode': mode, 'budget': 8 if small else budget,
+                   'dmax': 2 if small else (3 if quick else 4), 'imax': 1 if small else (2 if quick else 3)}
+            out.append({'name': 'single[%s|%s]' % (o.name, mode), 'func': 'h_pipe', 'timeout': 200 if quick else 600,
+                        'param': prm, 'twin': mode == 'api',
                         'bounds': '$s.%s over the endless counting source (budget %d): k in 0..%d, int arguments in '
                                   '0..%d, lambda constant symbolic; %s' % (
-                                      o.text.replace('%d', ''), budget, 3 if quick else 4, 2 if quick else 3,
+                                      o.text.replace('%d', ''), prm['budget'], prm['dmax'], prm['imax'],
                                       'call API, counting Python lambdas' if mode == 'api' else
                                       'YAQL text, lambdas go through tick()')})
         if o.closed is not None:
             for mode in ('api', 'text'):
-                out.append({'name': 'search[%s|%s]' % (o.name, mode), 'func': 'h_search', 'timeout': 100,
-                            'param': {'s1': s1, 'mode': mode, 'budget': budget}, 'twin': mode == 'api',
+                if quick and mode == 'text' and s1 % 3 != seed % 3:
+                    continue
+                out.append({'name': 'search[%s|%s]' % (o.name, mode), 'func': 'h_search', 'timeout': 200,
+                            'param': {'s1': s1, 'mode': mode, 'budget': 8 if (quick and mode == 'text') else budget},
+                            'twin': mode == 'api',
                             'bounds': '$s.%s on the raw source: pulls and lambda applications <= closed form + 1, '
-                                      'constant in -2..%d' % (o.text.replace('%d', ''), budget - 4)})
+                                      'constant in -2..budget-4' % o.text.replace('%d', '')})
     if K_INSERT in KNOWN:
         out.append({'name': 'probe[insert-read-ahead]', 'func': 'h_pipe', 'timeout': 100, 'kind': 'probe',
                     'param': {'s1': NAMES.index('where.mod'), 'depth': 2, 'mode': 'api', 'budget': budget, 'dmax': 2,
@@ -549,7 +557,7 @@ def conditions(tier, seed):
     firsts = [n for n, o in enumerate(OPS) if not o.terminal]
     thirds = [LATER[t::3] for t in range(3)]
     if quick:
-        chosen = [(s1, (seed // 8 + s1) % 3) for s1 in firsts if s1 % 8 == seed % 8]
+        chosen = [(s1, (seed + s1) % 3) for s1 in firsts]
         for s1, tn in chosen:
             out.append({'name': 'pipe2[%s|third%d]' % (OPS[s1].name, tn), 'func': 'h_pipe', 'timeout': 200,
                         'param': {'s1': s1, 'depth': 2, 'mode': 'api', 'budget': budget, 'dmax': 2, 'imax': 2,
